@@ -62,9 +62,15 @@ class LeastSquaresScipyStrategy(HoloPyObject):
             raise MissingParameter('at least one parameter to fit')
 
         if self.npixels is None:
-            original_dims = {key: data[key].values for key in data.dims}
-            data = flat(data)
-            data.attrs = dict(data.attrs, original_dims=original_dims)
+            if 'flat' in data.dims or 'point' in data.dims:
+                # already flat (e.g. a pixel subset): flat() would hand back
+                # the caller's own object, which must stay as it is -- and it
+                # already remembers the axes of the full image
+                data = data.copy()
+            else:
+                original_dims = {key: data[key].values for key in data.dims}
+                data = flat(data)
+                data.attrs = dict(data.attrs, original_dims=original_dims)
         else:
             data = make_subset_data(data, pixels=self.npixels)
         guess_lnprior = model.lnprior(model.initial_guess)
